@@ -8,31 +8,6 @@ import (
 	"github.com/evstack/ev-node/types"
 )
 
-// zzFullNode: a syncing node at chain height H whose tip is the proposer's
-// block H, plus the proposer's next n blocks (not yet applied).
-func zzFullNode(n int) (*zzEnv, *Manager, *zzDetExec, uint64, []*zzSlot, [][]byte) {
-	I := zzsym.U64("I")
-	zzsym.Assume(I >= 1 && I <= 1<<40)
-	H := zzsym.U64("H")
-	zzsym.Assume(H >= I && H <= 1<<41)
-	e := zzNewEnv(I)
-	ne := make([]bool, n+1)
-	for i := range ne {
-		// (whether the already applied tip block is empty is irrelevant)
-		ne[i] = i > 0 && zzsym.Bool("nonempty")
-	}
-	rootBefore := zzsym.BytesN("rootHm1", 2)
-	slots, roots := e.zzProposerChain(H-1, n+1, ne, rootBefore)
-	e.store.blocks[H] = slots[0]
-	e.store.height = H
-	st := types.State{ChainID: e.chainID, InitialHeight: I, LastBlockHeight: H, LastBlockTime: slots[0].header.Time(), AppHash: roots[0]}
-	e.store.state, e.store.hasState = st, true
-	m := e.zzManager(st)
-	ex := &zzDetExec{}
-	m.exec = ex
-	return e, m, ex, H, slots[1:], roots[1:]
-}
-
 // ZZ_C02_deliveries: the real SyncLoop fed with every sequence of up to
 // zzC02Len header events and zzC02Len data events for the proposer's next two
 // blocks (any order inside each channel, duplicates included, either block
